@@ -4,6 +4,7 @@ sandbox borrows (sys.stdout, the keys and identities in sys.modules, time.sleep,
 of the sandbox's own stacks; containment and the runtime feedback for C04."""
 import sys
 import time
+_SLEEP = time.sleep   # the real one: a sandbox that fails to restore it must not stall the harness
 import itertools
 
 MODES = {
@@ -214,12 +215,21 @@ def bounded(arg):
         sb, report = fresh('none')
         sb.threaded = True
         sb.allowed_time = 0.3
-        sb.run(MODES['timeout'], filename='answer.py')
+        import threading as _threading
+
+        def workers_gone():
+            # thread identifiers are recycled once a worker has ended: let the abandoned one end first
+            deadline = time.time() + 3
+            while _threading.active_count() > 1 and time.time() < deadline:
+                _SLEEP(0.01)
         for rounds in range(3):
+            sb.run(MODES['timeout'], filename='answer.py')
+            workers_gone()
             before = snapshot(sb)
             n_rt = len([f for f in report.feedback + report.ignored_feedback if f.category == 'runtime'])
             sb.run("import sys\nprint('leaving')\nsys.exit(2)\n", filename='answer.py')
             after = snapshot(sb)
+            workers_gone()
             evaluations += 1
             distinct.add(('sequence', 'timeout_then_exit', rounds))
             rts = [f for f in report.feedback + report.ignored_feedback if f.category == 'runtime']
